@@ -53,12 +53,14 @@ var wanted = map[string][]string{
 		"certificateMsg.unmarshal", "certificateRequestMsg.unmarshal", "serverKeyExchangeMsg.unmarshal",
 		"clientKeyExchangeMsg.unmarshal", "serverHelloDoneMsg.unmarshal",
 		"clientHelloMsg.marshalForCookie", "generateCookie", "verifyCookie",
+		"halfConn.explicitNonceLen", "Conn.maxPayloadSizeForWrite",
 	},
 	"tlcp": {
 		"extractPadding", "roundUp", "requiresClientCert", "supportedVersionsFromMax",
 		"tlcpIsCompleteMessage",
 		"certificateMsg.unmarshal", "certificateRequestMsg.unmarshal", "serverKeyExchangeMsg.unmarshal",
 		"clientKeyExchangeMsg.unmarshal", "serverHelloDoneMsg.unmarshal",
+		"halfConn.explicitNonceLen", "Conn.maxPayloadSizeForWrite",
 	},
 }
 
@@ -76,7 +78,51 @@ type goHash interface {
 var hmac = struct{ New func(h func() goHash, key []byte) goHash }{}
 var sm3 = struct{ New func() goHash }{}
 var subtle = struct{ ConstantTimeCompare func(x, y []byte) int }{}
+
+// --- views: the part of the connection state the size arithmetic reads.  The field lists are
+// checked against the real struct declarations (checkViews); fields whose real type is a library
+// interface are replaced by a value that carries only what the arithmetic asks of it.
+type Conn struct {
+	config      *Config
+	bytesSent   int64
+	packetsSent int64
+	out         halfConn
+}
+type Config struct {
+	DynamicRecordSizingDisabled bool
+	PMTU                        int
+}
+type halfConn struct {
+	cipher interface{} // nil, goStream, goAEAD or goCBC (the real dynamic types are library ciphers)
+	mac    goSized     // real type hash.Hash: only Size() is used
+}
+type goSized struct{ size int }
+func (m goSized) Size() int { return m.size }
+type goStream struct{}
+type goAEAD struct{ overhead, nonce int }
+func (a goAEAD) Overhead() int         { return a.overhead }
+func (a goAEAD) explicitNonceLen() int { return a.nonce }
+type goCBC struct{ blockSize int }
+func (b goCBC) BlockSize() int { return b.blockSize }
 `
+
+// viewStructs: stub structs standing for real ones, with the fields whose type is abstracted
+var viewStructs = map[string]map[string]bool{
+	"Conn":     {},
+	"Config":   {},
+	"halfConn": {"mac": true},
+}
+
+// viewOptional: stub fields that exist in only one of the packages
+var viewOptional = map[string]bool{"Config.PMTU": true, "Config.DynamicRecordSizingDisabled": true,
+	"Conn.bytesSent": true, "Conn.packetsSent": true}
+
+// dynCases: type-switch case types (source text) -> the stub type that stands for them
+var dynCases = map[string]string{"cipher.Stream": "goStream", "cipher.AEAD": "goAEAD", "aead": "goAEAD", "cbcMode": "goCBC"}
+
+// stubFuncs: methods declared in the stubs (translated before everything else)
+var stubFuncs = []string{"goSized.Size", "goAEAD.Overhead", "goAEAD.explicitNonceLen", "goCBC.BlockSize"}
+var dynTypes = []string{"goStream", "goAEAD", "goCBC"}
 
 // loopFuel: bounds (Go expressions over the function's parameters) for loops that are not
 // counting loops, in source order, keyed by "pkg.func".  A bound that is too small makes the
@@ -160,7 +206,9 @@ func synth(d *decls, pkgName string, fns []string) (*token.FileSet, *ast.File, *
 			if fd == nil || dropped[fn] != "" {
 				continue
 			}
-			printer.Fprint(&buf, d.fset, fd)
+			var fb bytes.Buffer
+			printer.Fprint(&fb, d.fset, fd)
+			buf.WriteString(rewriteDynCases(fb.String()))
 			buf.WriteString("\n\n")
 		}
 		fset := token.NewFileSet()
@@ -185,7 +233,8 @@ func synth(d *decls, pkgName string, fns []string) (*token.FileSet, *ast.File, *
 			},
 		}
 		info := &types.Info{Types: map[ast.Expr]types.TypeAndValue{}, Defs: map[*ast.Ident]types.Object{},
-			Uses: map[*ast.Ident]types.Object{}, Selections: map[*ast.SelectorExpr]*types.Selection{}}
+			Uses: map[*ast.Ident]types.Object{}, Selections: map[*ast.SelectorExpr]*types.Selection{},
+			Implicits: map[ast.Node]types.Object{}}
 		tp, _ := conf.Check(pkgName, fset, []*ast.File{f}, info)
 		if len(undefined) == 0 && len(other) == 0 {
 			return fset, f, info, tp, dropped, nil
@@ -238,6 +287,98 @@ func synth(d *decls, pkgName string, fns []string) (*token.FileSet, *ast.File, *
 		}
 	}
 	return nil, nil, nil, nil, dropped, fmt.Errorf("declaration closure did not converge")
+}
+
+// rewriteDynCases re-parses one function and replaces the case types of its type switches by
+// the stub types that stand for them (dynCases)
+func rewriteDynCases(src string) string {
+	if !strings.Contains(src, ".(type)") {
+		return src
+	}
+	fset := token.NewFileSet()
+	f, err := parser.ParseFile(fset, "f.go", "package p\n"+src, 0)
+	if err != nil {
+		return src
+	}
+	ast.Inspect(f, func(n ast.Node) bool {
+		ts, ok := n.(*ast.TypeSwitchStmt)
+		if !ok {
+			return true
+		}
+		for _, c := range ts.Body.List {
+			cc := c.(*ast.CaseClause)
+			for i, e := range cc.List {
+				var b bytes.Buffer
+				printer.Fprint(&b, fset, e)
+				if to, ok := dynCases[b.String()]; ok {
+					cc.List[i] = &ast.Ident{Name: to}
+				}
+			}
+		}
+		return true
+	})
+	var out bytes.Buffer
+	for _, dc := range f.Decls {
+		printer.Fprint(&out, fset, dc)
+		out.WriteString("\n")
+	}
+	return out.String()
+}
+
+// checkViews compares the stub structs with the real declarations: every stub field must exist in
+// the real struct with the same type text unless it is listed as abstracted
+func checkViews(d *decls) error {
+	fsetS := token.NewFileSet()
+	fS, err := parser.ParseFile(fsetS, "stubs.go", "package p\n"+externStubs, 0)
+	if err != nil {
+		return err
+	}
+	for _, dc := range fS.Decls {
+		gd, ok := dc.(*ast.GenDecl)
+		if !ok || gd.Tok != token.TYPE {
+			continue
+		}
+		for _, sp := range gd.Specs {
+			ts := sp.(*ast.TypeSpec)
+			abstracted, isView := viewStructs[ts.Name.Name]
+			if !isView {
+				continue
+			}
+			real := d.gens[ts.Name.Name]
+			if real == nil {
+				return fmt.Errorf("view %s: no such type in the tree", ts.Name.Name)
+			}
+			rst, ok := real.Specs[0].(*ast.TypeSpec).Type.(*ast.StructType)
+			if !ok {
+				return fmt.Errorf("view %s: not a struct in the tree", ts.Name.Name)
+			}
+			realFields := map[string]string{}
+			for _, f := range rst.Fields.List {
+				var b bytes.Buffer
+				printer.Fprint(&b, d.fset, f.Type)
+				for _, nm := range f.Names {
+					realFields[nm.Name] = b.String()
+				}
+			}
+			for _, f := range ts.Type.(*ast.StructType).Fields.List {
+				var b bytes.Buffer
+				printer.Fprint(&b, fsetS, f.Type)
+				for _, nm := range f.Names {
+					rt, ok := realFields[nm.Name]
+					if !ok {
+						if viewOptional[ts.Name.Name+"."+nm.Name] {
+							continue
+						}
+						return fmt.Errorf("view %s: field %s does not exist in the tree", ts.Name.Name, nm.Name)
+					}
+					if !abstracted[nm.Name] && rt != b.String() {
+						return fmt.Errorf("view %s: field %s has type %s in the tree, %s in the view", ts.Name.Name, nm.Name, rt, b.String())
+					}
+				}
+			}
+		}
+	}
+	return nil
 }
 
 // ---------------------------------------------------------------------------
@@ -326,6 +467,10 @@ func (t *tr) leanType(ty types.Type) string {
 		case types.String, types.UntypedString:
 			return "List (BitVec 8)" // a Go string is its bytes
 		}
+	case *types.Interface:
+		if u.NumMethods() == 0 {
+			return "Dyn"
+		}
 	case *types.Slice:
 		return "List (" + t.leanType(u.Elem()) + ")"
 	case *types.Pointer:
@@ -403,6 +548,10 @@ func (t *tr) zero(ty types.Type) string {
 		return "{}"
 	case *types.Pointer:
 		return "{}"
+	case *types.Interface:
+		if u.NumMethods() == 0 {
+			return "Dyn.nil"
+		}
 	}
 	bad("no zero value for %s", ty)
 	return ""
@@ -693,8 +842,15 @@ func (t *tr) binary(op token.Token, X, Y ast.Expr, resTy types.Type) string {
 		}
 		return "(" + x + " >>> " + n + ")"
 	case token.EQL, token.NEQ, token.LSS, token.LEQ, token.GTR, token.GEQ:
-		for _, side := range []ast.Expr{X, Y} {
+		for i, side := range []ast.Expr{X, Y} {
 			if id, ok := side.(*ast.Ident); ok && id.Name == "nil" {
+				other := []ast.Expr{Y, X}[i]
+				if it, ok := t.typeOf(other).Underlying().(*types.Interface); ok && it.NumMethods() == 0 && (op == token.EQL || op == token.NEQ) {
+					if op == token.EQL {
+						return "(" + t.expr(other) + " == Dyn.nil)"
+					}
+					return "(" + t.expr(other) + " != Dyn.nil)"
+				}
 				bad("comparison with nil (nil and empty slices are not distinguished)")
 			}
 		}
@@ -1237,6 +1393,8 @@ func (t *tr) stmt(o *out, s ast.Stmt) {
 		t.rangeStmt(o, x)
 	case *ast.SwitchStmt:
 		t.switchStmt(o, x)
+	case *ast.TypeSwitchStmt:
+		t.typeSwitchStmt(o, x)
 	case *ast.BranchStmt:
 		switch x.Tok {
 		case token.BREAK:
@@ -1289,6 +1447,14 @@ func (t *tr) copyStmt(o *out, c *ast.CallExpr) {
 }
 
 func (t *tr) callStmt(o *out, c *ast.CallExpr) {
+	if id, ok := c.Fun.(*ast.Ident); ok && id.Name == "panic" {
+		if _, isB := t.info.Uses[id].(*types.Builtin); isB {
+			t.meta.panics = true
+			t.actN++
+			t.emit(o, "throw %q", "panic: "+strings.Trim(t.src(c.Args[0]), "\""))
+			return
+		}
+	}
 	if id, ok := c.Fun.(*ast.Ident); ok {
 		if _, isB := t.info.Uses[id].(*types.Builtin); isB && id.Name == "copy" {
 			t.copyStmt(o, c)
@@ -1584,6 +1750,75 @@ func (t *tr) forStmt(o *out, f *ast.ForStmt) {
 		t.emit(o, "let %s : Int := %s + (%s : Int)", t.name(iobj), a, k)
 	}
 	t.stmts(o, f.Body.List)
+	o.indent--
+}
+
+// typeSwitchStmt: `switch v := x.(type) { case T1: ... default: ... }` over a value of the stub
+// type `interface{}` whose dynamic types are the stub structs (Dyn)
+func (t *tr) typeSwitchStmt(o *out, s *ast.TypeSwitchStmt) {
+	if s.Init != nil {
+		bad("type switch with an init statement")
+	}
+	var x ast.Expr
+	bound := false
+	switch a := s.Assign.(type) {
+	case *ast.AssignStmt:
+		x = a.Rhs[0].(*ast.TypeAssertExpr).X
+		bound = true
+	case *ast.ExprStmt:
+		x = a.X.(*ast.TypeAssertExpr).X
+	}
+	ast.Inspect(s.Body, func(n ast.Node) bool {
+		if b, ok := n.(*ast.BranchStmt); ok && (b.Tok == token.BREAK || b.Tok == token.FALLTHROUGH) {
+			bad("break / fallthrough inside a type switch")
+		}
+		return true
+	})
+	t.emit(o, "match %s with", t.expr(x))
+	var dflt *ast.CaseClause
+	for _, c := range s.Body.List {
+		cc := c.(*ast.CaseClause)
+		if cc.List == nil {
+			dflt = cc
+			continue
+		}
+		if len(cc.List) != 1 {
+			bad("type switch case with several types")
+		}
+		tn := t.src(cc.List[0])
+		isDyn := false
+		for _, d := range dynTypes {
+			if d == tn {
+				isDyn = true
+			}
+		}
+		if !isDyn {
+			bad("type switch case %s is not a view type", tn)
+		}
+		v := "_"
+		if bound {
+			if obj := t.info.Implicits[cc]; obj != nil {
+				v = t.name(obj)
+			}
+		}
+		t.emit(o, "| .%s %s =>", tn, v)
+		o.indent++
+		n := o.b.Len()
+		t.stmts(o, cc.Body)
+		if o.b.Len() == n {
+			t.emit(o, "pure ()")
+		}
+		o.indent--
+	}
+	t.emit(o, "| _ =>")
+	o.indent++
+	n := o.b.Len()
+	if dflt != nil {
+		t.stmts(o, dflt.Body)
+	}
+	if o.b.Len() == n {
+		t.emit(o, "pure ()")
+	}
 	o.indent--
 }
 
@@ -1887,6 +2122,25 @@ func isReturn(s ast.Stmt) bool {
 		return len(x.List) > 0 && isReturn(x.List[len(x.List)-1])
 	case *ast.IfStmt:
 		return x.Else != nil && isReturn(x.Body) && isReturn(x.Else)
+	case *ast.ExprStmt:
+		if c, ok := x.X.(*ast.CallExpr); ok {
+			if id, ok := c.Fun.(*ast.Ident); ok && id.Name == "panic" {
+				return true
+			}
+		}
+		return false
+	case *ast.TypeSwitchStmt:
+		hasDefault := false
+		for _, c := range x.Body.List {
+			cc := c.(*ast.CaseClause)
+			if cc.List == nil {
+				hasDefault = true
+			}
+			if len(cc.Body) == 0 || !isReturn(cc.Body[len(cc.Body)-1]) {
+				return false
+			}
+		}
+		return hasDefault
 	case *ast.SwitchStmt:
 		hasDefault := false
 		for _, c := range x.Body.List {
@@ -1937,8 +2191,14 @@ func translatePackage(repo, name string, w *strings.Builder, untranslated *[]str
 		fail(err.Error())
 		return
 	}
+	viewErr := checkViews(d)
 	var present []string
 	for _, fn := range wanted[name] {
+		if viewErr != nil && (strings.HasPrefix(fn, "Conn.") || strings.HasPrefix(fn, "halfConn.")) {
+			*untranslated = append(*untranslated, name+"."+fn)
+			fmt.Fprintf(w, "-- %s not translated: %v\n\n", fn, viewErr)
+			continue
+		}
 		if d.funcs[fn] != nil {
 			present = append(present, fn)
 		} else {
@@ -2011,8 +2271,31 @@ func translatePackage(repo, name string, w *strings.Builder, untranslated *[]str
 	emitted := map[*types.Named]bool{}
 	var emitStruct func(n *types.Named, depth int)
 	var mentions func(ty types.Type, f func(*types.Named))
+	dynDone := false
+	emitDyn := func() {
+		if dynDone {
+			return
+		}
+		dynDone = true
+		for _, dn := range dynTypes {
+			for _, n := range structs {
+				if n.Obj().Name() == dn {
+					emitStruct(n, 0)
+				}
+			}
+		}
+		w.WriteString("/-- the dynamic type of a value of the view type `interface{}` (see the stubs of go2lean) -/\ninductive Dyn where\n  | nil\n")
+		for _, dn := range dynTypes {
+			fmt.Fprintf(w, "  | %s (v : %s)\n", dn, dn)
+		}
+		w.WriteString("deriving Repr, DecidableEq\n\n")
+	}
 	mentions = func(ty types.Type, f func(*types.Named)) {
 		switch u := ty.(type) {
+		case *types.Interface:
+			if u.NumMethods() == 0 {
+				emitDyn()
+			}
 		case *types.Named:
 			if _, ok := u.Underlying().(*types.Struct); ok && u.Obj().Pkg() == tp {
 				f(u)
